@@ -18,7 +18,8 @@ const (
 )
 
 var (
-	guarded      map[*value]uint8 // cells under a write barrier
+	guarded      map[*value]uint8 // cells under a write barrier (per path)
+	frozenCells  map[*value]uint8 // shared-state cells (selected per path from frozenCache)
 	guardOn      bool
 	frozenMaps   map[*omap]bool
 	onceExtent   int // >0 while inside (*sync.Once).Do
@@ -30,6 +31,7 @@ func resetPathState() {
 	guarded = nil
 	guardOn = false
 	frozenMaps = nil
+	frozenCells = nil
 	onceExtent = 0
 	sharedWrites = nil
 	onceDonePath = map[*value]bool{}
@@ -52,6 +54,11 @@ func checkStore(addr *value) {
 	}
 	if f, ok := guarded[addr]; ok {
 		storeFault(f)
+	}
+	if frozenCells != nil {
+		if f, ok := frozenCells[addr]; ok {
+			storeFault(f)
+		}
 	}
 }
 
@@ -77,14 +84,50 @@ func checkMapStore(m *omap) {
 	}
 }
 
+type frozenSet struct {
+	cells map[*value]uint8
+	maps  map[*omap]bool
+	n     int
+}
+
+// frozenCache keeps the reachable set per root identity: the shared instance and goldmark's
+// globals are the same objects on every path of a worker, and a conversion that does not write
+// to them (which is what the barrier checks) cannot change the set.
+var frozenCache = map[string]*frozenSet{}
+
+func rootKey(roots []value) string {
+	k := ""
+	for _, r := range roots {
+		switch x := r.(type) {
+		case iface:
+			k += fmt.Sprintf("%p;", x.v)
+		case *value:
+			k += fmt.Sprintf("%p;", x)
+		default:
+			return ""
+		}
+	}
+	return k
+}
+
 // freezeReachable puts every heap cell reachable from the roots under the frozen barrier.
 func freezeReachable(i *interpreter, roots []value, pkgPrefix string) int {
-	if guarded == nil {
-		guarded = map[*value]uint8{}
+	key := rootKey(roots)
+	if fs, ok := frozenCache[key]; ok && key != "" {
+		frozenCells, frozenMaps = fs.cells, fs.maps
+		guardOn = true
+		return fs.n
 	}
-	if frozenMaps == nil {
-		frozenMaps = map[*omap]bool{}
+	n := freezeReachable0(i, roots, pkgPrefix)
+	if key != "" {
+		frozenCache[key] = &frozenSet{cells: frozenCells, maps: frozenMaps, n: n}
 	}
+	return n
+}
+
+func freezeReachable0(i *interpreter, roots []value, pkgPrefix string) int {
+	frozenCells = map[*value]uint8{}
+	frozenMaps = map[*omap]bool{}
 	seenPtr := map[*value]bool{}
 	seenSlice := map[*value]int{}
 	n := 0
@@ -95,7 +138,7 @@ func freezeReachable(i *interpreter, roots []value, pkgPrefix string) int {
 			return
 		}
 		seenPtr[p] = true
-		guarded[p] |= flagFrozen
+		frozenCells[p] = flagFrozen
 		n++
 		walk(*p)
 	}
